@@ -232,9 +232,17 @@ def handle (j : Json) : R Json := do
     let cdt ← dtypeOfJson (← fld j "cdt")
     let prev ← optPVal (← fld j "prev")
     let ret ← optPVal (← fld j "ret")
-    match writeTrace dt cdt prev (← pvalOfJson (← fld j "passed")) ret with
-    | some tr => return Json.mkObj [("got", pvalToJson tr.driverGot), ("cache", pvalToJson tr.cached)]
-    | none => return Json.mkObj [("got", Json.null), ("cache", Json.null)]
+    let passed ← pvalOfJson (← fld j "passed")
+    if (← fldStr j "via") == "proxy" then
+      match proxyTrace dt cdt prev passed ret with
+      | some tr => return Json.mkObj [("got", pvalToJson tr.driverGot), ("cache", pvalToJson tr.cached),
+                                      ("ret", pvalToJson tr.returned)]
+      | none => return Json.mkObj [("got", Json.null), ("cache", Json.null), ("ret", Json.null)]
+    else
+      match writeTrace dt cdt prev passed ret with
+      | some tr => return Json.mkObj [("got", pvalToJson tr.driverGot), ("cache", pvalToJson tr.cached),
+                                      ("ret", pvalToJson tr.cached)]
+      | none => return Json.mkObj [("got", Json.null), ("cache", Json.null), ("ret", Json.null)]
   | "judge_read_error" =>
     -- a driver raised an error of class `pycls` (error name `name`) with `text`: the client's read must hand back an
     -- error object of that class, that name and that text, usable and formatting as `SECoPError.format` prescribes
